@@ -51,8 +51,8 @@ Print Assumptions C11_reset_on_role_change.
    lies at or below a position this leadership had itself committed by then, i.e. at or below the
    index the read is served with.  (A later leadership cannot have committed anything before the
    request: the majority that acknowledged it had already left term t and cannot answer.) *)
-Theorem C11_read_index_covers_protocol : forall vs p r,
-  ReadIndex.rreach vs p -> In r (snd p) -> Safety.majority vs (ReadIndex.has_acker r) ->
+Theorem C11_read_index_covers_protocol : forall vs vo p r,
+  ReadIndex.rreach vs vo p -> In r (snd p) -> Safety.majority vs vo (ReadIndex.has_acker r) ->
   forall i' e' t', In (i', e', t') (ReadIndex.rd_c0 r) ->
     exists i e, In (i, e, ReadIndex.rd_term r) (ReadIndex.rd_c0 r) /\ (i' <= i)%nat.
 Proof. exact ReadIndex.read_index_covers. Qed.
@@ -60,7 +60,7 @@ Print Assumptions C11_read_index_covers_protocol.
 
 (* the premises are satisfiable (Spec/ReadIndexEx.v): an execution with a served read *)
 Theorem C11_protocol_nonvacuous :
-  exists p r, ReadIndex.rreach SafetyEx.vs3 p /\ In r (snd p) /\
-              Safety.majority SafetyEx.vs3 (ReadIndex.has_acker r) /\ ReadIndex.rd_c0 r <> [].
+  exists p r, ReadIndex.rreach SafetyEx.vs3 [] p /\ In r (snd p) /\
+              Safety.majority SafetyEx.vs3 [] (ReadIndex.has_acker r) /\ ReadIndex.rd_c0 r <> [].
 Proof. exact ReadIndexEx.read_index_nonvacuous. Qed.
 Print Assumptions C11_protocol_nonvacuous.
